@@ -52,13 +52,35 @@ def plan(tier, seed):
     den2 = 4 if tier == "quick" else 8
     for ch in range(48):
         jobs.append(("two", den2, ch, 48, 1 if tier == "thorough" else 11, 3000))
+    jobs.append(("optwire", seed, 50000))
     jobs.sort(key=lambda j: -j[-1])
     return jobs
 
 
 def run_job(job):
     env.quiet()
-    return {"one": job_one, "two": job_two}[job[0]](job)
+    return {"one": job_one, "two": job_two, "optwire": job_optwire}[job[0]](job)
+
+
+def job_optwire(job):
+    """--haplotype-posterior-threshold as typed on the command line is the threshold the program object holds (0 and 1 included)"""
+    from .. import optwire, stddata
+    from mchap.application import arguments as A
+    import mchap.application.assemble as asm
+
+    r = Result()
+    payload = {"kind": "job", "job": job}
+    D = stddata.Data(env.scratch_dir("c13o"))
+    argv = D.assemble_args()
+    optwire.check(r, payload, asm.program, argv, A.ASSEMBLE_MCMC_PARSER_ARGUMENTS, "assemble", only=("--haplotype-posterior-threshold",))
+    for thr in THRS + [0.0, 0.2, 1.0]:
+        obj = asm.program.cli(argv + ["--haplotype-posterior-threshold", repr(float(thr))])
+        r.evaluations += 1
+        r.nontrivial += 1
+        if float(obj.haplotype_posterior_threshold) != float(thr):
+            r.violation("option-threshold|thr=%g" % thr, "--haplotype-posterior-threshold %r gives a program with threshold %r" % (thr, obj.haplotype_posterior_threshold), payload)
+    r.sample({"option": "--haplotype-posterior-threshold", "values": sorted(set(THRS + [0.0, 0.2, 1.0]))})
+    return r
 
 
 # --------------------------------------------------------------------------- reference
